@@ -20,6 +20,7 @@ type c09SplitProg struct {
 	prog        *ts.Program
 	ref         ts.Result // reference run of the ORIGINAL single-file program
 	two         bool
+	diamond     bool
 	nMoved      int
 	movedPublic []string // public names of the moved functions
 	reason      string   // why nothing was built ("" = built)
@@ -75,7 +76,9 @@ func c09BuildSplit(t *rapid.T) (c09SplitProg, bool) {
 	// two libraries when there is enough to split: the second one holds a call-closed prefix and is imported by the first
 	inSecond := map[string]bool{}
 	two := gen.Uniform(0, 1).Draw(t, "two-libraries") == 1
-	if two && len(order) >= 2 {
+	// diamond: main imports lb and ld, both import lc, main does not (lc is reached along two paths, never directly)
+	diamond := two && gen.Uniform(0, 1).Draw(t, "diamond") == 1
+	if two && !diamond && len(order) >= 2 {
 		k := gen.Uniform(1, len(order)-1).Draw(t, "second-size")
 		for _, n := range order[:k] {
 			inSecond[n] = true // earlier definitions: they can only call each other
@@ -123,7 +126,14 @@ func c09BuildSplit(t *rapid.T) (c09SplitProg, bool) {
 	if two {
 		prog.Files["sub/lc.tsh"] = lc
 		lb.Imports = []ts.Import{{Alias: "lc", Path: "sub/lc.tsh"}}
-		mainF.Imports = append(mainF.Imports, ts.Import{Alias: "lc", Path: "sub/lc.tsh"})
+		if diamond {
+			ld := &ts.File{Imports: []ts.Import{{Alias: "lc", Path: "sub/lc.tsh"}}}
+			ld.Stmts = []ts.Stmt{ts.FuncDef{Name: "Ld", Rets: []ts.Type{ts.TInt}, Body: []ts.Stmt{ts.Return{Vals: []ts.Expr{ts.Call{Alias: "lc", Name: "Lbump", Rets: []ts.Type{ts.TInt}}}}}}}
+			prog.Files["ld.tsh"] = ld
+			mainF.Imports = append(mainF.Imports, ts.Import{Alias: "ld", Path: "ld.tsh"})
+		} else {
+			mainF.Imports = append(mainF.Imports, ts.Import{Alias: "lc", Path: "sub/lc.tsh"})
+		}
 		mainF.GroupImports = gen.Uniform(0, 1).Draw(t, "group") == 1
 	}
 	pubs := []string{}
@@ -132,7 +142,11 @@ func c09BuildSplit(t *rapid.T) (c09SplitProg, bool) {
 	}
 	if ref.Status == 0 {
 		// every library also keeps a private global that only its own public function touches; the importer calls it last
-		for alias, f := range map[string]*ts.File{"lb": lb, "lc": lc} {
+		for _, lf := range []struct {
+			alias string
+			f     *ts.File
+		}{{"lb", lb}, {"lc", lc}} {
+			alias, f := lf.alias, lf.f
 			if alias == "lc" && !two {
 				continue
 			}
@@ -154,12 +168,18 @@ func c09BuildSplit(t *rapid.T) (c09SplitProg, bool) {
 			}
 			f.Stmts = append(f.Stmts, ts.FuncDef{Name: "Lbump", Rets: []ts.Type{ts.TInt}, Body: append(upd, ts.Return{Vals: []ts.Expr{cnt}})})
 			call := ts.Call{Alias: alias, Name: "Lbump", Rets: []ts.Type{ts.TInt}}
+			if alias == "lc" && diamond {
+				call = ts.Call{Alias: "ld", Name: "Ld", Rets: []ts.Type{ts.TInt}} // main reaches lc only through ld
+			}
 			mainF.Stmts = append(mainF.Stmts, ts.Print{Args: []ts.Expr{ts.StrLit{V: alias}, call}}, ts.Print{Args: []ts.Expr{ts.StrLit{V: alias}, call}})
 			ref.Stdout += alias + " 8\n" + alias + " 9\n"
 			pubs = append(pubs, "Lbump")
 		}
 	}
-	return c09SplitProg{prog: prog, ref: ref, two: two, nMoved: len(moved), movedPublic: pubs}, true
+	if diamond {
+		pubs = append(pubs, "Ld")
+	}
+	return c09SplitProg{prog: prog, ref: ref, two: two, diamond: diamond, nMoved: len(moved), movedPublic: pubs}, true
 }
 
 func c09Split(t *rapid.T, r *rep.R) bool {
@@ -183,6 +203,9 @@ func c09Split(t *rapid.T, r *rep.R) bool {
 	r.Class("split")
 	if two {
 		r.Class("split:two-libraries")
+	}
+	if sp.diamond {
+		r.Class("split:diamond")
 	}
 	r.Class(fmt.Sprintf("split:moved-%d", sp.nMoved))
 	all := mainSource(srcs, "main.tsh")
